@@ -1670,6 +1670,8 @@ def run(chk, tier):
     chk.guard('C10.v', lambda: rule_addressof(chk, prog, tier))
     chk.guard('C10.w', lambda: rule_undefined_label(chk, prog, tier))
     chk.guard('C10.x', lambda: rule_specifier_sets(chk, prog, tier))
+    from props import c12
+    chk.guard('C12.b', lambda: c12.rule_redef(chk, prog, tier))             # 6.10.3p2 is a constraint: an incompatible macro redefinition must be diagnosed
     from props import c08
     chk.guard('C08.e', lambda: c08.rule_valist(chk, prog, tier))        # va_arg of a structure or union (unsupported) is diagnosed
     from props import c05
